@@ -269,7 +269,7 @@ def _cases(rng, tier):
             yield mk_name(s)
         for t in FIXED_RANGES:
             yield mk_range(t, ["len", "list", "set", "iter", "dicts", "len"])
-    n = {"quick": 3200, "thorough": 60000, "search": 3000}[tier]
+    n = {"quick": 3200, "thorough": 150000, "search": 3000}[tier]
     for i in range(n):
         r = rng.random()
         if r < 0.35:
